@@ -61,6 +61,7 @@ pub fn gen_group(rng: &mut Rng, n_files: usize, cfg_depth: usize, odd_names: boo
         vec![
             ("lib/util".to_string(), "exports.f = function (x) { return x + 1 }".to_string()),
             ("it's\\odd".to_string(), "exports.y = 2 // trailing comment\n".to_string()),
+            ("lib/nl".to_string(), "exports.z = 3 // trailing comment without a newline".to_string()),
         ]
     } else {
         vec![]
@@ -141,6 +142,25 @@ pub fn artefacts(tier: &str, seed: u64, out: &mut Out) {
         tg.add_tmpl("bad", s);
         for (kind, src) in all_artefacts(&tg, &["bad".to_string()]) {
             emit(out, &format!("bad{}", i), &kind, &src, Some(s));
+        }
+    }
+    // every control / quote character before every character that could extend an escape sequence
+    let firsts: Vec<char> = (0u32..0x20).filter_map(char::from_u32).chain("\"'\\`$\u{7f}\u{2028}\u{2029}".chars()).collect();
+    for (i, c) in firsts.iter().enumerate() {
+        let mut s = String::new();
+        for d in "0123456789abfnrtuvx\\{}$`".chars() {
+            if *c == '<' || *c == '{' {
+                continue;
+            }
+            s.push_str(&format!("<v>{}{}</v>", c, d));
+            if *c != '"' && *c != '\\' && *c != '\n' && *c != '\r' {
+                s.push_str(&format!("<v a='{}{}' b='{{{{ \"{}{}\" }}}}'/>", c, d, c, d));
+            }
+        }
+        let mut tg = TmplGroup::new();
+        tg.add_tmpl("lit", &s);
+        for (kind, src) in all_artefacts(&tg, &["lit".to_string()]) {
+            emit(out, &format!("lit{}", i), &kind, &src, Some(&s));
         }
     }
     // size-scaled: many declarations in one template (each node declares top-scope identifiers)
